@@ -55,8 +55,12 @@ def comparisons(body: Body, res: Resolver = None):
             term = res.operand(o)
             if term[0] == "discr":
                 continue
+            bits = {"i8": 8, "i16": 16, "i32": 32, "i64": 64, "i128": 128, "isize": 64}.get(oty)
             for v, dst in t["targets"]:
-                out.append(Cmp(i, term, ("int", int(v)), "==", dst, t["otherwise"], body.where(i)))
+                iv = int(v)
+                if bits and iv >= (1 << (bits - 1)):
+                    iv -= (1 << bits)                      # switch values are raw bit patterns: -1i32 is 0xFFFF_FFFF
+                out.append(Cmp(i, term, ("int", iv), "==", dst, t["otherwise"], body.where(i)))
             continue
         if len(t["targets"]) != 1 or t["targets"][0][0] != "0":
             continue
